@@ -167,7 +167,7 @@ func c05Run(c *Ctx, m *Model, sc c05Scenario) {
 		}
 		cl := byTask[t]
 		at := t.At
-		if !s.Step(t, 5*time.Second) {
+		if !s.Step(t, 1500*time.Millisecond) {
 			violated = fmt.Sprintf("call %s did not proceed from %s", t.Name, at)
 			break
 		}
@@ -378,7 +378,7 @@ func runC05(c *Ctx) error {
 		return nil
 	}
 	n := c.N(700, 30000)
-	for i := 0; i < n; i++ {
+	for i := 0; i < n && !c.Rep.ShouldStop(); i++ {
 		c05Run(c, m, c05Gen(c.Rng))
 	}
 	return nil
